@@ -286,7 +286,7 @@ static std::unique_ptr<F> makeFactor(const Matrix_<E>& mat, int mode, bool useRc
 
 // ------------------------------------------------------------------ shared oracles
 static const LD C_RES = 8;      // backward-error constant: tolerance = C_RES*(dim+10)*eps*(|A||x|+|b|)   (LU, LLT)
-static const LD C_ORT = 80;     // same for the orthogonal-transformation based methods (QTZ, SVD, Eigen): small matrices
+static const LD C_ORT = 320;    // same for the orthogonal-transformation based methods (QTZ, SVD, Eigen): small matrices
                                 // use ~20 eps there; calibrated so that the worst ratio on the unchanged tree is ~1e-2
 static LD dimf(int m, int n) { return (LD)(std::max(m, n) + 10); }
 
